@@ -90,6 +90,9 @@ EVENTS = {
                 ['B1', 'B2'], 'invalid:invalid definition'),
     # a unit without definition in a type with reference unit (no scale)
     'xnone': (['unit', 'B1', 'xnone', ['none']], ['B1'], 'valid'),
+    # the same in a type with a quantum
+    'Q1': (['type', 'Q1', 'q0', 'D:0.05'], [], 'valid'),
+    'qnone': (['unit', 'Q1', 'qnone', ['none']], ['Q1'], 'valid'),
     # definitions that denote zero
     '!zero': (['unit', 'B1', 'xz', ['scaled', 'i:0', 'x0']], ['B1'],
               'invalid:zero scale'),
